@@ -102,6 +102,21 @@ def run_recipe(C, drv, rc):
         branch.parent = par
         check_tree(C, drv, root, 'history-after-edit', recipe=rc)
         check_tree(C, drv, _copy.deepcopy(root), 'history-deepcopy', recipe=rc)
+    elif rc['kind'] == 'subtree':
+        root = T.build(_tup(rc['shape']))
+        nodes, _ = T.walk(root)
+        if rc.get('measured_first'):
+            _ = (root.pre_order, root.n_nodes)
+        for k_, nd_ in enumerate(nodes):
+            if nd_.parent is not None:
+                check_part(C, nd_, 'subtree', dict(rc, at=k_))
+    elif rc['kind'] == 'childlinks':
+        def mk(s_):
+            if s_ == 'L':
+                return L['Node'](name=0, type='TERMINAL', value=np.array([[0.5]]))
+            kids = [mk(c_) for c_ in s_[1:]]
+            return L['Node'](name='ABS' if s_[0] == 'U' else 'SUM', type='FUNCTION', left=kids[0], right=kids[1] if len(kids) > 1 else None)
+        check_part(C, mk(_tup(rc['shape'])), 'childlinks', dict(rc, at=0))
     elif rc['kind'] == 'link-order':
         side = rc['side']
         p_ = L['Node'](name='SUM', type='FUNCTION')
@@ -174,6 +189,34 @@ def run_recipe(C, drv, rc):
             check_tree(C, drv, o, 'second-generation', recipe=rc)
 
 
+def check_part(C, root, tag, recipe):
+    """traversals and measurements of a node regarded as the top of its own tree although the object graph around it is
+    not a stand-alone, fully linked tree (it hangs inside a larger tree, or carries child links only): judged against
+    the recursive reference over child links; find_node only beyond the range"""
+    nodes, dup = T.walk(root)
+    idx = {id(n): i for i, n in enumerate(nodes)}
+    rp = dict(how='tree', tree=T.enc_tree(root), recipe=recipe)
+    real_pre = [idx.get(id(x), -1) for x in root.pre_order]
+    real_post = [idx.get(id(x), -1) for x in root.post_order]
+    ref = T.ref_props(root)
+    real_props = (root.min_depth, root.max_depth, root.n_leaves, root.n_nodes)
+    if real_props != (ref['min_depth'], ref['max_depth'], ref['n_leaves'], ref['n_nodes']):
+        C.issue('measurement-wrong', 'oracle', rp, real=real_props, reference=ref, part=tag)
+    if real_pre != [idx[id(x)] for x in T.ref_pre(root)]:
+        C.issue('pre-order-wrong', 'oracle', rp, real=real_pre, part=tag)
+    if real_post != [idx[id(x)] for x in T.ref_post(root)]:
+        C.issue('post-order-wrong', 'oracle', rp, real=real_post, part=tag)
+    for p in (len(nodes), len(nodes) + 1, len(nodes) + 5):
+        try:
+            a, b = root.find_node(p)
+        except Exception as ex:
+            C.issue('find-node-wrong', 'oracle', dict(rp, p=p), real=type(ex).__name__, reference='noslot', part=tag)
+            continue
+        if a is not None or b is not False:
+            C.issue('find-node-wrong', 'oracle', dict(rp, p=p), real='slot', reference='noslot', part=tag)
+    C.case(key=(tag, rp['tree'], recipe.get('at')), nontrivial=len(nodes) >= 2, kind=tag)
+
+
 def check(ctx):
     L = lib.load()
     np = L['np']
@@ -202,6 +245,12 @@ def check(ctx):
         for k in range(60 if ctx['tier'] == 'quick' else 600):
             s_ = C.rng.choice(shapes2)
             run_recipe(C, drv, dict(kind='history', shape=s_, pick=C.rng.randrange(1 << 20), branch=C.rng.choice(T.shapes_upto(2))))
+        # a node inside a larger tree regarded as the top of its own sub-tree; trees assembled through the constructor's
+        # left= / right= arguments only (no parent links): traversals and measurements follow the child links
+        for s_ in T.shapes_upto(2 if ctx['tier'] == 'quick' else 3):
+            if s_ != 'L':
+                run_recipe(C, drv, dict(kind='subtree', shape=s_, measured_first=bool(T.shape_size(s_) % 2)))
+                run_recipe(C, drv, dict(kind='childlinks', shape=s_))
         # every order of the three linking steps of a right (and left) child
         for side in (False, True):
             for order in _it.permutations(['flag', 'parent', 'attach']):
